@@ -18,14 +18,16 @@ import (
 )
 
 type Mutant struct {
-	ID      string `json:"id"`
-	File    string `json:"file"`
-	Find    string `json:"find"`
-	Replace string `json:"replace"`
-	Append  string `json:"append,omitempty"` // text appended to the file (new helper functions)
-	Rule    string `json:"rule,omitempty"`   // rule expected to fire
-	Benign  bool   `json:"benign,omitempty"` // behaviour-preserving edit: the check must stay silent
-	Note    string `json:"note,omitempty"`
+	ID       string `json:"id"`
+	File     string `json:"file"`
+	Find     string `json:"find"`
+	Replace  string `json:"replace"`
+	Append   string `json:"append,omitempty"` // text appended to the file (new helper functions)
+	Find2    string `json:"find2,omitempty"`  // optional second edit in the same file
+	Replace2 string `json:"replace2,omitempty"`
+	Rule     string `json:"rule,omitempty"`   // rule expected to fire
+	Benign   bool   `json:"benign,omitempty"` // behaviour-preserving edit: the check must stay silent
+	Note     string `json:"note,omitempty"`
 }
 
 type MutantResult struct {
@@ -98,6 +100,13 @@ func runMutant(prop string, m Mutant, checkBuild bool) MutantResult {
 		return res
 	}
 	s = strings.Replace(s, m.Find, m.Replace, 1) + m.Append
+	if m.Find2 != "" {
+		if n := strings.Count(s, m.Find2); n != 1 {
+			res.Report = fmt.Sprintf("second anchor snippet occurs %d times (need exactly 1): skipped", n)
+			return res
+		}
+		s = strings.Replace(s, m.Find2, m.Replace2, 1)
+	}
 	if err := os.WriteFile(fp, []byte(s), 0o644); err != nil {
 		res.Report = err.Error()
 		return res
